@@ -114,6 +114,21 @@ def generate(rng, tier):
                     continue
                 for p in ps:
                     cases.append({"lines": [f"ondemand {rng.choice(['heap', 'page'])} {G.hx(d)} " + " ".join(p)], "cls": "escape-at-block-edge", "nontrivial": True})
+    # keys written with escapes, looked up by their DECODED form (resolves), by their RAW spelling (resolves only if another member
+    # decodes to exactly those bytes), and by near-misses of both; duplicates whose spellings differ
+    import json as _json
+    raws = [b"a\\\\b", b"a\\nb", b"\\u0061", b'x\\"y', b"k\\\\", b"\\/", b"q\\tq\\\\", b"\\u005c", b"\\\\\\\\", b'k\\"', b"a\\u005cb"]
+    for raw in raws:
+        dec = _json.loads(b'"' + raw + b'"').encode("utf-8", "surrogatepass")
+        other = rng.choice(raws)
+        for d in (b'{"' + raw + b'":1,"zz":[2]}', b'{"first":0,"' + raw + b'":{"in":[1,2]},"' + other + b'":7}' + b" " * 70,
+                  b'{"' + raw + b'":1,"' + raw.replace(b"\\\\", b"\\\\\\\\") + b'":2}', b'[{"' + raw + b'":[true]}]'):
+            pre = [] if d[:1] == b"{" else ["n0"]
+            for key in (dec, raw, raw + b"\\", dec + b"\\", raw[:-1], dec[:-1] if dec else b"x", other):
+                cases.append({"lines": [f"ondemand {rng.choice(['heap', 'page'])} {G.hx(d)} " + " ".join(pre + ["k" + (key.hex() or "-")])], "cls": "escaped-key-spellings",
+                              "nontrivial": True})
+                if rng.random() < 0.3:
+                    cases.append({"lines": [f"pod {G.hx(d)} " + " ".join(pre + ["k" + (key.hex() or "-")])], "cls": "pod", "nontrivial": True})
     for d in docs[: (20 if quick else 800)]:
         if len(d) < 120:
             ps = paths_of(rng, d)
